@@ -802,9 +802,28 @@ class RunT(RunBase):
         RunBase.__init__(self, case)
         plugins, wspbus = _plugins()
         self.patches.shared_attr(plugins.ThreadManager, 'threads', reads=False)
+        self.patches.shared_attr(wspbus.Bus, 'state')
         self.bus = wspbus.Bus()
         self.tm = plugins.ThreadManager(self.bus)
         self._wrap(self.tm)
+        self.lifecycle = case.get('bus')
+        if self.lifecycle:
+            # the real bus life-cycle around the thread manager: it is subscribed like in a deployment, the
+            # stopper calls bus.stop()/graceful()/exit(), which publish to SEVERAL listeners in priority order
+            # (one before and one after the thread manager's own sweep), request threads go through the
+            # 'acquire_thread' / 'release_thread' channels; acquisitions and releases land in every bus state
+            saved = (wspbus.os, wspbus.atexit)
+            wspbus.os = _OsShim(os)
+            wspbus.atexit = _FakeAtexit
+
+            def undo():
+                wspbus.os, wspbus.atexit = saved
+            self.undo.append(undo)
+            self.tm.subscribe()
+            for ch in ('stop', 'graceful', 'exit'):
+                for prio, tag in ((10, 'early'), (90, 'late')):
+                    self.bus.subscribe(ch, (lambda c, t: lambda: S.ypoint(('listener', c, t)))(ch, tag), priority=prio)
+            self.bus.start()
         self.journal = []          # ('+'|'-', index, publisher tid)
         self.bus.subscribe('start_thread', lambda i: self._pub('+', i))
         self.bus.subscribe('stop_thread', lambda i: self._pub('-', i))
@@ -840,7 +859,9 @@ class RunT(RunBase):
         def body():
             self.ident[threading.get_ident()] = 't%d' % (k + 1)
             for op in ops:
-                if op == 'a':
+                if self.lifecycle:
+                    self.bus.publish('acquire_thread' if op == 'a' else 'release_thread')
+                elif op == 'a':
                     self.tm.acquire_thread()
                 else:
                     self.tm.release_thread()
@@ -848,6 +869,11 @@ class RunT(RunBase):
         return body
 
     def _stopper(self):
+        if self.lifecycle:
+            for call in self.lifecycle:
+                getattr(self.bus, call)()
+                self.srets += 1
+            return
         for _ in range(self.case['nstops']):
             self.tm.stop()
             self.srets += 1
@@ -860,7 +886,9 @@ class RunT(RunBase):
         d = ['%s:%s' % (self.ident.get(k, '?'), v) for k, v in self.registry()]
         j = ['%s%s@%s' % e for e in self.journal]
         srec = self.s.recs['s']
-        e = '0' if srec.exc is None else ('1' if isinstance(srec.exc, RuntimeError) else 'C')
+        # (inside bus.stop() a failure of the sweep arrives wrapped in ChannelFailures)
+        e = '0' if srec.exc is None else ('1' if isinstance(srec.exc, RuntimeError) or
+                                          'RuntimeError(' in str(srec.exc) else 'C')
         o = 'D=%s;J=%s;r=%s;s=%d;E=%s' % (','.join(d) or '-', ','.join(j) or '-',
                                          ','.join(str(n) for n in self.rrets) or '-', self.srets, e)
         dead = [tid for tid, r in self.s.recs.items() if tid != 's' and r.exc is not None]
@@ -874,7 +902,7 @@ def oracle_T(case, run):
     for tid, r in run.s.recs.items():
         if r.exc is not None:
             bad.append(('%s raised %s: %s' % ('ThreadManager.stop()' if tid == 's' else 'request thread ' + tid,
-                                              type(r.exc).__name__, r.exc),
+                                              type(r.exc).__name__, str(r.exc)[:200]),
                         'T:exception:%s:%s' % ('stop' if tid == 's' else 'request', type(r.exc).__name__)))
     if not all(r.done for r in run.s.recs.values()):
         return bad + [('a ThreadManager call did not finish', 'T:call_never_returns')]
@@ -892,6 +920,13 @@ def oracle_T(case, run):
             bad.append(('index %s: start_thread published %d time(s), stop_thread %d time(s), %d registration(s) '
                         'left' % (i, st, sp, held.get(i, 0)),
                         'T:stop_thread_twice' if sp + held.get(i, 0) > st else 'T:stop_thread_missing'))
+    # a serving thread that has released itself (and not acquired again) is not registered any more
+    left = set(run.ident.get(k, '?') for k, _v in run.registry())
+    for k, ops in enumerate(case['scripts']):
+        tid = 't%d' % (k + 1)
+        if ops and ops[-1] == 'r' and tid in left:
+            bad.append(('%s has called release_thread (its last call) but is still registered when everything is '
+                        'over: its start_thread will never be matched by a stop_thread' % tid, 'T:stale_registration'))
     # each serving thread announces itself (start_thread from its own acquire) at most once per registration
     for k, ops in enumerate(case['scripts']):
         tid = 't%d' % (k + 1)
@@ -899,7 +934,7 @@ def oracle_T(case, run):
         if mine > ops.count('a'):
             bad.append(('%s published start_thread %d times with %d acquire calls' % (tid, mine, ops.count('a')),
                         'T:start_thread_twice'))
-        if case['nstops'] == 0 and mine != _expected_starts(ops):
+        if _nstops(case) == 0 and mine != _expected_starts(ops):
             bad.append(('%s published start_thread %d times, expected %d (no concurrent stop)'
                         % (tid, mine, _expected_starts(ops)), 'T:start_thread_count'))
     return bad
@@ -988,7 +1023,8 @@ def scenario_key(case):
     if k == 'B':
         return 'B %s %s%s%s' % (','.join(case['calls']) or '-', case.get('foreign', ''), ' op' if case.get('op') else '',
                                 ' intr=' + case['intr'] if case.get('intr') else '')
-    return 'T %d %s%s' % (case['nstops'], '/'.join(case['scripts']) or '-', ' op' if case.get('op') else '')
+    return 'T %d %s%s%s' % (case['nstops'], '/'.join(case['scripts']) or '-', ' op' if case.get('op') else '',
+                            ' bus=' + ','.join(case['bus']) if case.get('bus') else '')
 
 
 def model_line(case, trace):
@@ -998,7 +1034,12 @@ def model_line(case, trace):
                                          ','.join(case.get('calls2') or ()) or '-', trace)
     if k == 'B':
         return 'AB %s %s %s' % (','.join(case['calls']) or '-', case.get('foreign') or '-', trace)
-    return 'AT %s %d %s %s' % (modes()['T'], case['nstops'], '/'.join(case['scripts']) or '-', trace)
+    return 'AT %s %d %s %s' % (modes()['T'], _nstops(case), '/'.join(case['scripts']) or '-', trace)
+
+
+def _nstops(case):
+    # every bus.stop()/graceful()/exit() runs the thread manager's sweep exactly once
+    return len(case['bus']) if case.get('bus') else case['nstops']
 
 
 def comparable(case):
@@ -1271,6 +1312,10 @@ def gen_random(ctx, kind, n):
             names = ['s', 's'] + ['t%d' % (k + 1) for k in range(len(scripts))]
             case = {'k': 'T', 'nstops': rng.choice([0, 1, 1, 1, 2]), 'scripts': scripts,
                     'sched': rand_sched(rng, names, rng.randint(4, 60))}
+            if rng.random() < 0.35 and case['nstops']:
+                case['bus'] = [rng.choice(['stop', 'graceful', 'exit']) for _ in range(case['nstops'])]
+                if 'exit' in case['bus'][:-1]:
+                    case['bus'] = ['stop'] * case['nstops']
         out.append(case)
     return out
 
@@ -1389,6 +1434,19 @@ def all_cases(ctx):
         for intr in ('k1', 'k2', 's1', 's3'):
             for b in (0, 2, 5, 9):
                 cases.append({'k': 'B', 'calls': calls, 'intr': intr, 'sched': ['m'] * 2 + ['x'] * b + ['m'] * 12})
+    # T inside the real bus life-cycle: bus.stop()/graceful()/exit() publish 'stop' to an early listener, the
+    # thread manager's sweep, a late listener; acquisitions and releases land in every state (STARTED, STOPPING
+    # before / during / after the sweep, STOPPED)
+    for scripts, calls in ((['ar', 'ar'], ['stop']), (['a', 'ar'], ['stop']), (['ar', 'ar'], ['graceful']),
+                           (['ar', 'ar'], ['exit']), (['ar', 'ar', 'ar'], ['stop']), (['a', 'ar'], ['stop', 'stop']),
+                           (['ar', 'ara'], ['graceful', 'stop'])):
+        last = 't%d' % len(scripts)
+        for a in (0, 5):
+            for b in range(0, 13 if quick else 16):
+                for c in ((0, 4, 7) if quick else range(0, 9)):
+                    for d in ((0, 2) if quick else (0, 1, 2, 3, 5)):
+                        cases.append({'k': 'T', 'nstops': len(calls), 'bus': calls, 'scripts': scripts,
+                                      'sched': ['t1'] * a + ['s'] * b + [last] * c + ['s'] * d + [last] * 8})
     # T
     for scripts in T_SCRIPTS:
         if modes()['T'] == 'asIs' and sum(s.count('a') for s in scripts) > 5:
